@@ -1,6 +1,6 @@
 ---------------------------- MODULE J5CompileMC ----------------------------
 EXTENDS J5Compile
-BasesQuick == {"single", "svc", "twofile", "twopkg", "twopkgfile", "proto", "aliasclash", "shadow", "svcref", "inlsib", "svcreflate", "shadowsvc", "inlsame", "aliasdecl"}
+BasesQuick == {"single", "svc", "twofile", "twopkg", "twopkgfile", "proto", "aliasclash", "shadow", "svcref", "inlsib", "svcreflate", "shadowsvc", "inlsame", "aliasdecl", "dotfiles"}
 BasesSingle == {"single"}
 BasesProto == {"proto"}
 BasesSim == {"empty", "single", "onefile", "twofile", "twopkg"}
